@@ -23,8 +23,8 @@ PROPERTY = "C09"
 MANIFEST_INFO = {
     "engine": "B",
     "design_ref": "DESIGN.md section 5, C09",
-    "technique": "exhaustive enumeration of well-formed TestResult histories (0-3 tests x six outcomes x exc_info / reason / details forms, run- and test-level tags, explicit or implicit times) x detail payload shapes (0-2 details, 8 chunk lists incl. empty chunks, 3 content types with parameters, non-ASCII names and reasons), each replayed on a fresh real ExtendedToStreamDecorator -> {stream recorder, StreamToExtendedDecorator -> extended recorder} pipeline; stream well-formedness and per-test round-trip equality oracles",
-    "level_text": "Every single-test history over all 3606 (outcome, form, payload) variants x 4 tag/time settings, every two-test history over a 60-variant alphabet (thorough: 3 tests over 14 variants, 2 tests over 120), is pushed through the real converters. Between them the stream must show per test one 'inprogress', then each detail's chunks in order with eof exactly on its last chunk, then exactly one final status; at the far end each test must reappear as one startTest/outcome/stopTest bracket with the same id, the mapped outcome (error -> failure), the tags current at its outcome, the supplied times, the skip reason and every non-empty detail with identical bytes and content type.",
+    "technique": "exhaustive enumeration of well-formed TestResult histories (0-3 tests x six outcomes x exc_info / reason / details forms, run- and test-level tags, explicit or implicit times) x detail payload shapes (0-2 details, 10 chunk lists incl. empty chunks, 4 content types with parameters, non-ASCII names and reasons), each replayed on a fresh real ExtendedToStreamDecorator -> {stream recorder, StreamToExtendedDecorator -> extended recorder} pipeline; stream well-formedness and per-test round-trip equality oracles",
+    "level_text": "Every single-test history over all ~9000 (outcome, form, payload) variants x 4 tag/time settings, every two-test history over a 60-variant alphabet (thorough: 3 tests over 14 variants, 2 tests over 120), is pushed through the real converters. Between them the stream must show per test one 'inprogress', then each detail's chunks in order with eof exactly on its last chunk, then exactly one final status; at the far end each test must reappear as one startTest/outcome/stopTest bracket with the same id, the mapped outcome (error -> failure), the tags current at its outcome, the supplied times, the skip reason and every non-empty detail with identical bytes and content type.",
     "level_note": "Content types are within the C16 round-trip envelope; details consisting only of empty chunks need not reappear; without explicit time() only the presence of timestamps is checked.",
 }
 
@@ -35,11 +35,13 @@ def ts(n):
     return datetime.datetime(2023, 3, 3, 0, 0, n, tzinfo=UTC)
 
 
-CHUNKS = ([], [b""], [b"a"], [b"a", b""], [b"", b"a"], [b"a", b"bc"], [b"\xff\xfe"], [b"", b"", b"x"])
+# (the last two repeat the very same bytes object: b"" and one-byte bytes are interned by CPython)
+CHUNKS = ([], [b""], [b"a"], [b"a", b""], [b"", b"a"], [b"a", b"bc"], [b"\xff\xfe"], [b"", b"", b"x"], [b"a", b"b", b"a"], [b"", b"x", b""])
 TYPES = (
     ContentType("text", "plain", {"charset": "utf8"}),
     ContentType("application", "octet-stream"),
     ContentType("text", "x-t", {"k": "v w", "j": "1"}),
+    ContentType("text", "csv", {"fields": "ts,level", "charset": "utf8"}),
 )
 NAMES = ("d1", "détail")
 OUTCOMES = ("addSuccess", "addError", "addFailure", "addSkip", "addExpectedFailure", "addUnexpectedSuccess")
@@ -65,7 +67,7 @@ def make_test(kind, n):
 
 def payload_alphabet():
     # (bytes that are not valid UTF-8 are not declared as utf8 text)
-    return [(ci, ti) for ci in range(len(CHUNKS)) for ti in range(len(TYPES)) if not (ci == 6 and ti == 0)]
+    return [(ci, ti) for ci in range(len(CHUNKS)) for ti in range(len(TYPES)) if not (ci == 6 and ti in (0, 3))]
 
 
 def variants_full():
@@ -89,7 +91,7 @@ def variants_full():
 def variants_small(n_payloads):
     P = payload_alphabet()
     step = max(1, len(P) // n_payloads)
-    chosen = [(), ] + [(P[i],) for i in range(0, len(P), step)][:n_payloads] + [(P[5], P[18])]
+    chosen = [(), ] + [(P[i],) for i in range(0, len(P), step)][:n_payloads] + [(P[5], P[18]), (P[-1], P[-5])]
     out = []
     for o in OUTCOMES:
         for pl in chosen:
